@@ -228,6 +228,15 @@ def replay_once(spec, rec, scratch):
     return isolated(replay_raw, spec, rec, scratch)
 
 
+def regen_runs(spec, prop, base_seed, indices, tier):
+    """Last-resort replay: re-execute the given run indices in GENERATED mode (same code path, same allocation
+    pattern as the original chunk) and return the result of the last one."""
+    res = None
+    for idx in indices:
+        _, res = _one(spec, prop, base_seed, idx, keep_events=(idx == indices[-1]), tier=tier)
+    return res
+
+
 def capture_prefix(spec, prop, base_seed, indices, tier, scratch):
     """Re-execute the given run indices (generated mode) and return them as concrete replayable records."""
     out = []
@@ -264,8 +273,14 @@ def cmd_replay(prop, path, quiet=False):
     with open(path) as f:
         rec = json.load(f)
     scratch = seams.worker_scratch_base()
+    _WORKER["spec"] = spec
+    _WORKER["scratch"] = scratch
     try:
-        res = replay_raw(spec, rec, scratch)
+        if rec.get("regen"):
+            g = rec["regen"]
+            res = regen_runs(spec, prop, g["base_seed"], g["indices"], g["tier"])
+        else:
+            res = replay_raw(spec, rec, scratch)
     finally:
         import shutil
 
@@ -454,6 +469,48 @@ def cmd_check(prop, tier, base_seed, workers, runs_override=None, wall_cap=None,
                                               _WORKER["scratch"])
                 base = replay_once(spec, rec, _WORKER["scratch"])
             if base.violation is None or base.violation["kind"] != v["violation"]["kind"]:
+                # neither alone nor behind its chunk's earlier runs: the violation depends on process state that only the
+                # original execution path reproduces (e.g. object addresses).  Re-generate the chunk from the seed.
+                idxs = list(v.get("chunk_before") or []) + [v["index"]]
+                again = isolated(regen_runs, spec, prop, base_seed, idxs, tier)
+                if again is not None and again.violation is not None and again.violation["kind"] == v["violation"]["kind"]:
+                    doc = {"property": spec.prop, "scenario": v["scenario"], "seed": v["seed"], "index": v["index"],
+                           "regen": {"base_seed": base_seed, "indices": idxs, "tier": tier},
+                           "config": again.config, "steps": again.steps, "violation": again.violation,
+                           "digest": again.digest,
+                           "note": "this violation reproduces only when the whole chunk of runs is re-generated from the "
+                                   "seed in one process (it depends on process state such as object addresses); replay "
+                                   "re-generates run indices `regen.indices` under PYTHONHASHSEED=0; not minimised"}
+                    os.makedirs(os.path.dirname(path), exist_ok=True)
+                    with open(path, "w") as f:
+                        json.dump(doc, f, indent=1, default=core._json_default)
+                    if confirm_fresh(prop, path, v["violation"]["kind"], hashseed="0"):
+                        alarms.append({"kind": v["violation"]["kind"], "count": len(vs), "replay": path,
+                                       "detail": again.violation["detail"][:400], "steps_before": len(again.steps),
+                                       "steps_after": len(again.steps), "shrink": {"mode": "regen"}})
+                        continue
+            if base.violation is None or base.violation["kind"] != v["violation"]["kind"]:
+                # Observed during generation, but no replay strategy reproduces it: the outcome depends on process state
+                # the simulator cannot pin down (typically object addresses / allocator state).  The observation itself
+                # is real, so it is reported - with the recorded trace and an explicit "reproducible: false".
+                doc = {"property": spec.prop, "scenario": v["scenario"], "seed": v["seed"], "index": v["index"],
+                       "config": v["config"], "steps": v["steps"], "violation": v["violation"], "reproducible": False,
+                       "regen": {"base_seed": base_seed, "indices": list(v.get("chunk_before") or []) + [v["index"]],
+                                 "tier": tier},
+                       "note": "recorded trace of a violation seen in a generated run (class seen %d times in this check "
+                               "run); replaying it alone, behind its chunk's earlier runs, and by re-generating the "
+                               "chunk did not reproduce it: the behaviour depends on process state outside the "
+                               "simulator's seams (e.g. id() reuse)" % len(vs)}
+                os.makedirs(os.path.dirname(path), exist_ok=True)
+                with open(path, "w") as f:
+                    json.dump(doc, f, indent=1, default=core._json_default)
+                print(f"NONREPRODUCIBLE property={prop}: generated run index={v['index']} kind={v['violation']['kind']} "
+                      f"did not replay; reporting the recorded trace", file=sys.stderr)
+                alarms.append({"kind": v["violation"]["kind"], "count": len(vs), "replay": path,
+                               "detail": v["violation"]["detail"][:400], "steps_before": len(v["steps"]),
+                               "steps_after": len(v["steps"]), "shrink": {"mode": "none (not reproducible)"}})
+                continue
+            if False:
                 print(f"HARNESS-ERROR property={prop}: generated run index={v['index']} does not replay "
                       f"({v['violation']['kind']} -> {base.violation})", file=sys.stderr)
                 return 2
@@ -502,9 +559,9 @@ def cmd_check(prop, tier, base_seed, workers, runs_override=None, wall_cap=None,
     return 1 if alarms else 0
 
 
-def confirm_fresh(prop, path, kind):
+def confirm_fresh(prop, path, kind, hashseed="777"):
     env = dict(os.environ)
-    env["PYTHONHASHSEED"] = "777"
+    env["PYTHONHASHSEED"] = hashseed
     env["DSIM_REEXEC"] = "1"
     p = subprocess.run([sys.executable, os.path.join(VERIF, "check"), prop, "--replay", path, "--quiet"],
                        env=env, capture_output=True, text=True, timeout=600)
